@@ -2160,6 +2160,10 @@ class PyMethod:
                 if name == 'extend':
                     recv.extend(interp.iterate(a[0]))
                     return None
+                if name == 'update' and isinstance(recv, set) and a and all(hasattr(x, 'abs_iter') or not is_abstract(x) for x in a):
+                    for x in a:
+                        recv.update(interp.iterate(x))
+                    return None
                 if name == 'update' and (isinstance(recv, set) and any(is_abstract(x) and not hasattr(x, 'abs_iter') for x in a)
                                          or isinstance(recv, dict) and any(is_abstract(x) for x in a)):
                     # members that are not enumerated (a class of code points): the concrete part stays as it is
